@@ -153,7 +153,7 @@ impl Prop for C06 {
         (iso, cr, any::<bool>(), any::<u16>(), any::<u8>()).prop_map(|(iso, c, reduced, crossing, threads)| Case { iso, c, reduced, crossing, threads }).boxed()
     }
     fn cases(tier: Tier) -> u32 { tier.pick(2_500, 40_000) }
-    fn shards(_: Tier) -> usize { 8 }
+    fn shards(tier: Tier) -> usize { tier.pick(8, 16) }
     fn replay_repeats() -> usize { 5 }
     fn run(case: &Case, ctx: &Ctx) -> Outcome { to_outcome(run_case(case, ctx.tier)) }
 }
